@@ -15,3 +15,17 @@ class Recorder:
 
 class Recorder2(Recorder):
     """A second, distinguishable class: `make` must build the class that was registered."""
+
+
+_UNSET = object()
+
+
+class Named(Recorder):
+    """An entry point with *named* constructor parameters (like every real environment): positional arguments of the
+    caller bind to a, b, c in this order, so `make(id, 7)` on an id whose registered kwargs contain `a` must fail with
+    the constructor's own TypeError, and registered kwargs for parameters the caller did not bind must still arrive."""
+
+    def __init__(self, a=_UNSET, b=_UNSET, c=_UNSET, *rest, **kwargs):
+        bound = {k: v for k, v in (("a", a), ("b", b), ("c", c)) if v is not _UNSET}
+        self.args = rest
+        self.kwargs = dict(bound, **kwargs)
